@@ -194,6 +194,13 @@ fn main() {
         let max_runs: usize = args.get(4).map(|s| s.parse().unwrap()).unwrap_or(20_000_000);
         std::process::exit(find(&args[2], args.get(3).map(|s| s.as_str()).unwrap_or(""), max_runs));
     }
+    if args.get(1).map(|s| s == "satcount").unwrap_or(false) {
+        // runs the harness once (first behaviour) and prints how many satisfiable answers the oracle gave
+        let f = registry::lookup(&args[2]).expect("unknown harness");
+        let _ = std::panic::catch_unwind(move || f());
+        println!("{}", crustabri_verif::oracle::SAT_ANSWERS.load(std::sync::atomic::Ordering::Relaxed));
+        return;
+    }
     if args.get(1).map(|s| s == "replay").unwrap_or(false) {
         std::process::exit(replay_script(&args[2], args.get(3).map(|s| s.as_str()).unwrap_or("")));
     }
